@@ -19,10 +19,15 @@ def run(prop, tier):
     res = C.Result(prop, tier)
     proof = C.proof_step(["Props/C18.v"])
     proof["trusted"] = [
-        "model IO/Wav.v (44-byte RIFF/PCM header as Python's wave module writes it), Audio/Pcm.v (to_array), IO/Source.v (load = two reads); tied by correspondence, not by translation",
+        "model IO/Wav.v (44-byte RIFF/PCM header as Python's wave module writes it), Audio/Pcm.v (to_array), IO/Source.v + IO/Load.v (load = an optional skipping read and one data read on the source machine); core._read_offline is translated from /repo on every run and proved equal to Load.read_offline for all audio and all float durations (harness/py2coq/misc.py group load, TieLoad.v) and run against it (op 64); the codec and the numpy layout are tied by correspondence",
         "the wave module, the file system and numpy are exercised, not verified; pydub formats are out of reach in this sandbox",
         "extraction (ExtrOcamlBasic only) + OCaml driver, cross-checked by vm_compute on a sample",
     ]
+    from ..py2coq import misctie
+    tie = misctie.tie_group("load")
+    proof["tie_obligations"] = tie["obligations"]
+    if not tie["ok"]:
+        proof["undischarged"] = tie["obligations"]
     au = C.import_auditok()
     from auditok import AudioRegion, load
     from auditok.io import to_file, from_file
@@ -107,6 +112,14 @@ def run(prop, tier):
                         what = "load(skip=%r, max_read=%r) raised %s: %s" % (s, m, type(e).__name__, e)
                     if not ok and viol is None:
                         viol = {"what": what, "samples": n, "rate": sr, "sw": w, "ch": ch, "input_kind": "bytes" if isinstance(inp, bytes) else os.path.splitext(inp)[1], "options": {k: v for k, v in kw.items()}}
+                    if isinstance(inp, bytes):
+                        # the same call against the model of _read_offline (op 64)
+                        try:
+                            gi = [0, list(load(inp, skip=s, max_read=m, **kw).data)]
+                        except Exception as e:
+                            gi = [1, 1 if isinstance(e, (ValueError, OverflowError)) else 0]
+                        cases.append((64, [list(data), sr, w * ch, [C.fhex_me(float(s))], [] if m is None else [C.fhex_me(float(m))]])); impl.append(gi)
+                        meta.append({"load": {"skip": s, "max_read": m}, "rate": sr, "sw": w, "ch": ch, "samples": n})
             # --- numpy export
             if n:
                 arr = reg.numpy()
@@ -178,9 +191,12 @@ def run(prop, tier):
     res.coverage.update({"evaluations": evals + len(cases), "distinct_nontrivial": len({C.dumps(c) for c, o in zip(cases, outs) if len(o) > 1}),
                          "rule": "seeded audio (widths 1/2/4, 1-4 channels, odd rates, 0..60 samples incl. empty): wav bytes written by to_file()/save() compared byte for byte with the model's wav_encode; wav and raw files read back with load()/from_file(), eager and lazy; load(skip, max_read) on bytes / wav / raw against slicing for skip and max_read on, between and beyond sample boundaries; numpy export element-wise against the model's to_array; file-name placeholders; exists_ok=False with str and Path; non-trivial = distinct non-empty model result",
                          "samples": [{"case": meta[0], "model_first_bytes": outs[0][:48]}, {"case": meta[-1], "model": outs[-1]}],
-                         "vm_compute_crosschecked": vm, "correspondence_mismatches": len(mism)})
+                         "vm_compute_crosschecked": vm, "correspondence_mismatches": len(mism), "tie_translation": tie["detail"][:300]})
     if viol:
         res.add_violation(viol["what"], viol)
+    elif not tie["ok"] and not mism:
+        res.tie_undischarged("translation tie broken: " + tie["detail"][:700] + " -- the correspondence agrees everywhere and the slicing oracle found no failing input",
+                             {"no_longer_checks": "TieLoad.v tie_read_offline", "tie_detail": tie["detail"]})
     elif mism:
         m, i, o = mism[0]
         k = next((j for j, (a, b) in enumerate(zip(i, o)) if a != b), min(len(i), len(o)))
